@@ -218,3 +218,19 @@ package keeper
 //@ ensures err == nil ==> old(has(Store_tunnel, types.TunnelStoreKey(msg.TunnelID))) && old(tunnelAt(Store_tunnel, msg.TunnelID)).Creator == msg.Creator && old(tunnelAt(Store_tunnel, msg.TunnelID)).IsActive
 //@ ensures err == nil ==> !tunnelAt(Store_tunnel, msg.TunnelID).IsActive && !has(Store_tunnel, types.ActiveTunnelIDStoreKey(msg.TunnelID))
 //@ ensures err != nil ==> Store_tunnel == old(Store_tunnel)
+
+// ---- C08: manual trigger ----------------------------------------------------------------------------------------
+// Only the creator can trigger, only an ACTIVE tunnel, only if the fee payer can pay; the packet takes the next sequence
+// number and carries the current feeds prices of ALL the tunnel's signals - so it is a full send and the interval clock
+// restarts at this block time (the end-blocker will not send another interval packet before a whole interval has passed
+// since now); remembered prices are merged with the packet's. On failure of the creator / activity / funds checks
+// nothing changes.
+//@ func (k msgServer) TriggerTunnel
+//@ modifies Store_tunnel, Bank, Other
+//@ requires wfTunnel(Store_tunnel, msg.TunnelID) && wfLP(Store_tunnel, msg.TunnelID)
+//@ ensures err == nil ==> old(has(Store_tunnel, types.TunnelStoreKey(msg.TunnelID))) && old(tunnelAt(Store_tunnel, msg.TunnelID)).Creator == msg.Creator && old(tunnelAt(Store_tunnel, msg.TunnelID)).IsActive
+//@ ensures err == nil ==> tunnelAt(Store_tunnel, msg.TunnelID).Sequence == wrapu64(old(tunnelAt(Store_tunnel, msg.TunnelID)).Sequence + 1)
+//@ ensures err == nil ==> has(Store_tunnel, types.TunnelPacketStoreKey(msg.TunnelID, wrapu64(old(tunnelAt(Store_tunnel, msg.TunnelID)).Sequence + 1)))
+//@ ensures err == nil ==> lpAt(Store_tunnel, msg.TunnelID).LastInterval == sdkctx(goCtx).BlockTime().Unix() && lpAt(Store_tunnel, msg.TunnelID).TunnelID == msg.TunnelID
+//@ ensures err == nil ==> lpAt(Store_tunnel, msg.TunnelID).Prices == types.mergedPrices(old(lpAt(Store_tunnel, msg.TunnelID)).Prices, packetAt(Store_tunnel, msg.TunnelID, wrapu64(old(tunnelAt(Store_tunnel, msg.TunnelID)).Sequence + 1)).Prices)
+//@ ensures (!old(has(Store_tunnel, types.TunnelStoreKey(msg.TunnelID))) || old(tunnelAt(Store_tunnel, msg.TunnelID)).Creator != msg.Creator || !old(tunnelAt(Store_tunnel, msg.TunnelID)).IsActive) ==> err != nil && Store_tunnel == old(Store_tunnel) && Bank == old(Bank) && Other == old(Other)
